@@ -22,6 +22,11 @@ LN_RING = ("Theorems are about models M1 (AtomicMove) / M2 (FullSyncMove), not a
            "(every hook point, register value and result of every recorded schedule must agree) - as strong as the schedules explored. "
            "Sequential consistency assumed; index-based cancel is excluded from the executions the ring theorems quantify over unless the cancel is exact (see cancel_steals in DESIGN.md).")
 
+UNI_KINDS = ["mfullsync", "matomic", "mcrossbeam", "zatomic", "zfullsync"]
+UNI_RULE = ("real Uni channels (N in {2,4}, MAX_STREAMS in {1,2}, 1..MAX streams created) with 1-3 producers using send / send_with / send_with_async "
+            "(suspended for a random number of turns) / reserve+send-reserved and hand-driven stream tasks that park on Pending and are re-polled when their waker "
+            "fired (sometimes spuriously, sometimes through a new waker); scheduler picks at every streams-manager / poll hook; DISTINCT by trace hash; "
+            "NON-TRIVIAL if some stream parked and some wake_stream call ran")
 HANDLES_RULE = ("2-3 threads run random scripts of new / new_with_clones / clone / drop / bulk increment + raw copies / reference count / deref / "
                 "unique new / drop / into_ogre_arc on one pool (sizes 2,4,8; both free-list kinds); scheduler picks at every reference-counter access; "
                 "DISTINCT by trace hash, NON-TRIVIAL if a last-drop (dealloc) happens and at least one clone/bulk increment ran concurrently in the script")
@@ -108,5 +113,57 @@ PROPS = {
     rule="2-3 recording threads (1-5 measurements each incl. the -1.0 sentinel and 0) + a reading thread; scheduler picks at the load and at the CAS; DISTINCT by trace hash; NON-TRIVIAL if some CAS failed and was retried",
     trusted_base=TB_COMMON + ["Lean's Float32 and Rust's f32 are both IEEE-754 binary32 with round-to-nearest (compared bit for bit on every run)"],
     assumptions=["counts stay below the documented u32::MAX reset"],
+ ),
+ "C04": dict(
+    level_text="Lean 4 proof of `no reachable state is stuck` (an accepted event pending, all producers returned, every live stream parked and un-notified) for the poll/park/wake protocol model, for all four wake rules (uni full-sync, atomic, crossbeam, send-reserved), every number of streams/producers/buffer sizes/schedules, spurious polls and waker changes included, by an inductive invariant; counterexample theorems for what the invariant does not survive (movable send_with_async, MAX_STREAMS = 0). Tied to the five real Uni channels by step-level replay of scheduled runs - including runs that end stuck, where model and code agree step by step; stuck states are decided by the scheduler (nobody runnable), not timed out. A second, finer-grained search (every ring access a yield point) judges the implementation alone.",
+    level_note="Theorem about model M8, in which a queue operation is one step (C02) - the two-phase publication of the atomic rings is visible only to the oracle-only `fine` search; one task per stream token for C07; Multi channels and the log channel use the same streams-manager code but their per-listener rules are covered by the oracle of the multi scenarios only. Known findings are listed in known_findings.json.",
+    lean=["C04"],
+    scenarios=[dict(bin="uni", args=[f"kind={k}", "sub=flow"], runs=500, model_name="M8 Wake", kinds=["lost_wakeup", "no_progress", "panic"]) for k in UNI_KINDS] +
+              [dict(bin="uni", args=[f"kind={k}", "sub=fine"], runs=300, model=False, model_name="(oracle only)", kinds=["lost_wakeup", "no_progress", "panic"]) for k in UNI_KINDS],
+    rule=UNI_RULE,
+    trusted_base=TB_COMMON + ["crossbeam-channel: linearizable bounded queue with a linearizable len()", "the hand-rolled executor of the harness (re-polls a parked task iff its waker fired, or spuriously) stands for tokio's"],
+    assumptions=["streams 0..k-1 of a Uni channel exist for the whole run (documented use)", "MAX_STREAMS >= 1"],
+ ),
+ "C07": dict(
+    level_text="Lean 4 proof, for every execution of model M8 (cancel requests at any point, concurrent sends, spurious polls): a stream whose keep-running flag was cleared is never left parked and un-notified once the cancel's wake call has finished, it ends at its first empty consume, yields only buffered events meanwhile, and a cancel touches no other stream's flag / waker / state; counterexample theorem for `untargeted streams keep being woken` on Uni channels (recorded finding). Tied to the code by step-level replay; the scheduler decides `parked forever`.",
+    level_note="Theorem about model M8 under the hypothesis that different streams are driven by tasks with different wakers (TokRun); stream-id recycling is C10's bookkeeping theorem. Known finding: ending a proper subset of a Uni channel's streams starves the others.",
+    lean=["C07"],
+    scenarios=[dict(bin="uni", args=[f"kind={k}", "sub=cancel"], runs=500, model_name="M8 Wake", kinds=["cancelled_stream_never_ended", "untargeted_stream_starved", "no_progress", "panic", "invented", "duplicate"]) for k in UNI_KINDS],
+    rule=UNI_RULE + "; cancel requests for a random subset of the streams are injected after a random number of scheduler turns",
+    trusted_base=TB_COMMON,
+    assumptions=["one task (waker) per stream"],
+ ),
+ "C08": dict(
+    level_text="Lean 4 proof on ring model M1: index-based publication succeeds only on the caller's own sequence number and publishes the slot's content; while a reservation is held nobody else writes its slot; index-based cancel is exact, changes nothing but the reservation counter and is refused out of order, whenever producer-side calls are sequential (the property's scope; a counterexample theorem shows it is not exact with a concurrent producer mid-call); cancelled content is never delivered; at quiescence nothing is leaked and exactly N sends are accepted; u32 exactness of the lap reconstruction at any counter magnitude is C15. Tied to the code by step-level replay of random reservation histories with concurrent consumers, in the release and the overflow-checking build.",
+    level_note=LN_RING + " Zero-copy / ogre_arc reservations are pool allocations (C13/C05 models).",
+    lean=["C08"],
+    scenarios=[ring("atomic", "rsv", 2000), ring("atomic", "rsv", 1000, profile="checked"),
+               dict(bin="ring", args=["kind=atomic", "sub=diff", "origins=0,4294967288,4294967280,4294967264"], runs=300, model=False, profile="checked", model_name="(differential)")] +
+              [dict(bin="uni", args=[f"kind={k}", "sub=flow"], runs=300, model_name="M8 Wake", kinds=["invented", "duplicate", "rejected_delivered", "lost", "order", "panic"]) for k in ["matomic", "zatomic", "zfullsync"]],
+    profiles=["release", "checked"],
+    rule="one producer-side thread issues a random history of reserve / fill / publish-by-index / cancel-by-index (newest first, sometimes out of order) / plain send (only with no reservation outstanding), 1-2 concurrent consumers; NON-TRIVIAL if a full/empty answer or a receding CAS occurs; DISTINCT by trace hash",
+    trusted_base=TB_COMMON,
+    assumptions=["producer-side calls are sequential while reservations are cancelled (the channel documents reverse-order cancellation)", "payloads without destructor"],
+ ),
+ "C15": dict(
+    level_text="Lean 4 proof that every decision the rings take from their wrapping u32 counters (admission, emptiness as a signed difference, slot index, length, CAS equality, lap reconstruction of index-based publish / cancel with its checked + and *) equals the decision model M1/M2 takes from free-running naturals, for counters of ANY magnitude inside the windows the ring invariant provides, and that no checked operation overflows (counterexample theorem: the pinned `enqueuer_tail - 1` does). Tied to the code: step-level replay from origins just below 2^32 (counters wrap during the run), differential replay of sequential histories from five origins in the release and the overflow-checking build.",
+    level_note="Arithmetic lemmas about Mutiny/Model/U32.lean (the expressions of the source, transcribed by hand) + ring invariant windows; BUFFER_SIZE a power of two enters as N | 2^32; fewer than 2^31 - N concurrent claimants.",
+    lean=["C15"],
+    scenarios=[ring(k, "diff", 300, extra=["origins=0,4294967288,4294967280,4294967272,4294967264"], model=False, profile=p) for k in ("atomic", "fullsync") for p in ("release", "checked")] +
+              [ring(k, "mixed", 800, extra=["origins=4294967288,4294967280,0,4294967264"]) for k in ("atomic", "fullsync")] +
+              [handles("atomic", 300)],
+    profiles=["release", "checked"],
+    rule="the same seeded history is replayed from sequence origins {0, 2^32-8, 2^32-16, 2^32-24, 2^32-32} (rounded to multiples of N) and every answer compared; NON-TRIVIAL if it contains index-based publish/cancel; plus scheduled concurrent runs from those origins replayed on the model",
+    trusted_base=TB_COMMON + ["verif_rebase (hook): advances all counters of a quiescent ring by a multiple of BUFFER_SIZE"],
+    assumptions=["origins are multiples of BUFFER_SIZE"],
+ ),
+ "C20": dict(
+    level_text="Lean 4 proof: (ring M1) with every other thread idle each operation completes within 5 own steps, consumers complete and receive the front element even while reservations are outstanding, whereas a publication behind a suspended reservation can never complete (tail cannot pass it) - the model-level witness of the movable-atomic finding; (lock ring M2) while a thread sits at the write point holding the flag nobody else ever acquires it - witness of the movable-full-sync finding - and with the flag free every operation completes in 5 own steps; zero-copy and Multi send_with_async suspend holding only a pool slot (model M8 asyncZc: every other action stays enabled). Tied to the code: scheduled runs with one send_with_async suspended until all other producers finish; the scheduler's stall verdict decides `never returns`.",
+    level_note="Theorems about models M1/M2/M8; the two known findings (movable atomic, movable full-sync) are listed in known_findings.json; the retry-when-full loops of the crossbeam and arc channels wait by documented design and are outside the statement; log channel: send_with_async is todo!() upstream.",
+    lean=["C20", "C20_LockRing"],
+    scenarios=[dict(bin="uni", args=[f"kind={k}", "sub=susp"], runs=100, model=False, model_name="(oracle only)", kinds=["blocked_by_suspended_send", "panic", "invented", "duplicate", "lost"]) for k in UNI_KINDS],
+    rule="producer 0 starts send_with_async and stays suspended until every other producer (plain sends) has finished; stream tasks poll meanwhile; every ring / lock / streams-manager hook is a yield point; NON-TRIVIAL if a stream parked and a wake call happened",
+    trusted_base=TB_COMMON,
+    assumptions=[],
  ),
 }
